@@ -119,6 +119,10 @@ func VerifyFunction(prog *ssa.Program, db *ContractDB, fn *ssa.Function, fc *Fun
 			}
 		}
 	}
+	fv.applyNameAliases()
+	for _, r := range fv.renamed {
+		enc.assumedUsed["renamed since the contracts were written, resolved by position (contracts/names.json): "+shortName(fn.String())+": "+r] = true
+	}
 	fv.initLocks(st)
 	// lemma axioms
 	for _, ln := range fc.Uses {
